@@ -23,7 +23,19 @@ CHECKS = {
     'C05': ("model_checking", "next_id() from every Inv state with an absent id at or above the allocator position: fresh, below capacity, position advances; without the precondition it panics.", "4 C05"),
     'C06': ("model_checking", "Inductive argument over the slot table: Inv ties slot occupancy to tags; collection empties slot and counter; bind of two ungrouped vertices takes a "
             "previously empty slot for every one of the 2^14 occupancy patterns (over-approximated pre-state); no other call changes occupancy. Hence any number of create-put-read cycles.", "4 C06"),
+    'C07': ("model_checking", "Every operation with UNCONSTRAINED (64-bit) ids and arbitrary labels/data from every Inv state, on the IR compiled with debug assertions: each symbolic path must end in "
+            "return or panic; the executor's memory model (per-allocation bounds, liveness, dealloc layout, initialisation tracking) turns any other end into a counterexample. A returning path "
+            "implies the id is below the capacity and the label fits; an (N+1)-th label and a 17th member must panic; no panic within the limits. Concrete lifecycles check alloc/dealloc pairing.", "4 C07"),
+    'C10': ("model_checking", "clone() from every Inv state: every abstract field of the copy equals the original's (data decoded by the real Hex::bytes), the copy lives in allocations made by the call "
+            "(arenas and every heap datum), the original is byte-identical afterwards. Equal futures follow from the functional step relation (C19), independence from the frame clauses.", "4 C10"),
+    'C17': ("model_checking", "The real Label::from_str and Display, executed together with the IR of core::str/core::num/core::fmt/alloc::string (-Zbuild-std), on symbolic texts: the shape (UTF-8 length class "
+            "per character) is fixed per run, every character ranges over ALL scalar values of its class except U+0020. parse-then-print, must-reject, print-then-parse (Greek, Str, Alpha). "
+            "Bounds on decimal indices are stated in the evidence (bit-blasted decimal arithmetic is the limit).", "4 C17"),
+    'C19': ("model_checking", "Each configuration is shown to refine ONE functional step relation that mentions neither N nor the capacity (results, kids() order, next_id() = first absent id at or above the "
+            "position, post-state up to the name of a new group's slot); two configurations that agree on the abstract state therefore agree on every answer. The executor reports ordering "
+            "comparisons between pointers into different allocations (address-dependent behaviour); none occurs. merge/slice under arbitrary hash seeds are outside the claim.", "4 C19"),
 }
+T_NOTE = S_NOTE + " C17 additionally: built with the sandbox's nightly toolchain and -Zbuild-std (the IR of core/alloc/std is needed), getenv() returns NULL."
 
 K_NOTE = ("Trusted base: Kani 0.68 (MIR -> GOTO translation, its pinned nightly toolchain) and CBMC 6.11 with CaDiCaL; unwinding assertions on. "
           "Stubs: alloc::fmt::format and std::backtrace::Backtrace::capture in the numeric-conversion harnesses (error text is not part of the property). "
@@ -58,12 +70,19 @@ for pid, (cat, text, ref) in CHECKS.items():
         "replay_cmd_template": "./check %s --replay {path}" % pid,
         "engine": "S",
         "level_claimed": {"category": cat, "text": text, "design_ref": "DESIGN.md section " + ref},
-        "level_note": S_NOTE,
-        "technique": S_TECH,
+        "level_note": T_NOTE if pid == 'C17' else S_NOTE,
+        "technique": S_TECH if pid != 'C17' else "symbolic execution of rustc's LLVM IR incl. core/alloc/std (-Zbuild-std, own executor) + z3: all texts of a shape / all label values within stated bounds",
     })
 
 NA = {
     'C14': "script parsing is defined by four regex::Regex objects compiled at run time; the regex compiler/matcher cannot be encoded within reach (DESIGN.md section 6)",
+    'C08': "save/load runs serde derive + bincode + emap/micromap/microstack visitors + std::fs; Kani cannot run the emap-backed graph (DESIGN 8.1) and no encoding of the serializer on engine S was built (DESIGN.md section 6)",
+    'C09': "needs the same serde/bincode encoding as C08 with a symbolic cut point; not built (DESIGN.md section 6)",
+    'C11': "merge() is recursive over HashMap<usize,usize> with RandomState (SipHash of symbolic keys) and anyhow errors; not encodable within reach on either engine (DESIGN.md section 6)",
+    'C12': "same code as C11 (merge with HashMap and formatted anyhow errors); not encodable within reach (DESIGN.md section 6)",
+    'C13': "slice() uses HashSet/HashMap with RandomState over an emap-backed graph and a caller-supplied predicate; not encodable within reach (DESIGN.md section 6)",
+    'C18': "the observable is text produced by core::fmt, xml-builder and itertools::sorted over an emap-backed graph: Kani can run neither the graph nor the formatter, and no per-structure encoding on engine S was built (DESIGN.md section 6)",
+    'C20': "inspect()/Debug/v_print produce formatted text and inspect() walks with a HashSet; same obstacles as C18 and C13 (DESIGN.md section 6)",
 }
 na = []
 for p in props:
